@@ -28,8 +28,8 @@ Alphabet ==
                               /\ (op.a = "Untouched" => "Untouched" \in GenExtra)}
            : p \in FullParams} \cup
     UNION {{op \in AtOps(p) : "At" \in GenExtra /\ op.x \in {"a", "e1"}} : p \in FullParams} \cup
-    UNION {{op \in NestOps(p) : \/ "Nest" \in GenExtra /\ op.a = "ReadNested" /\ op.x \in {"a", "e1"}
-                               \/ "NestInv" \in GenExtra /\ op.x \in Invs} : p \in FullParams} \cup
+    UNION {{op \in NestOps(p) : ("Nest" \in GenExtra /\ op.a = "ReadNested" /\ op.x \in {"a", "e1"})
+                                \/ ("NestInv" \in GenExtra /\ op.x \in Invs)} : p \in FullParams} \cup
     {op \in DeactOps : "Deact" \in GenExtra /\ op.p \in GenConns} \cup
     UNION {{op \in OpsOf(p) : (op.a = "ReadOk" /\ op.x = "a") \/ (op.a = "ReadRaise" /\ op.x = "e1" /\ "LiteErr" \in GenExtra)}
            : p \in LiteParams} \cup
